@@ -15,10 +15,23 @@ from mc import build, core
 
 DRIVERS = os.path.join(build.VERIF, "drivers")
 
-SAN_FLAGS = ["-O1", "-g", "-fsanitize=address,undefined", "-fno-sanitize-recover=undefined"]
+# Two builds of every driver:
+#
+#  * STRICT: exactly the flags of DESIGN 2.9; the first sanitizer report (UBSan or ASan) kills
+#    the process.  Used to CONFIRM and to REPLAY single vectors: its report is what a
+#    violation's signature is made of.
+#  * SWEEP: the same instrumentation in recover mode.  A sanitizer prints every distinct
+#    report once per faulting source location per process and goes on, so a defect that
+#    fires on thousands of vectors (the out-of-bounds read in torontonian_common.cpp fires on
+#    EVERY torontonian input) costs neither a process / fork per vector nor hides the values
+#    and further reports behind it.  Every vector that shows a report or a wrong value in the
+#    sweep is re-executed alone under the STRICT build before it is reported.
+STRICT_FLAGS = ["-O1", "-g", "-fsanitize=address,undefined", "-fno-sanitize-recover=undefined"]
+SWEEP_FLAGS = ["-O1", "-g", "-fsanitize=address,undefined", "-fsanitize-recover=address,undefined"]
+SAN_FLAGS = STRICT_FLAGS
 SAN_ENV = {
-    "ASAN_OPTIONS": "detect_leaks=0:abort_on_error=0:symbolize=1",
-    "UBSAN_OPTIONS": "print_stacktrace=0:halt_on_error=1",
+    "ASAN_OPTIONS": "detect_leaks=0:abort_on_error=0:symbolize=0:halt_on_error=0",
+    "UBSAN_OPTIONS": "print_stacktrace=0:halt_on_error=0",
 }
 
 
@@ -27,8 +40,10 @@ def _common_rev():
         return hashlib.sha1(fh.read()).hexdigest()[:8]
 
 
-def build_driver(name, builddir, flags=None, tag=""):
+def build_driver(name, builddir, flags=None, tag="", sweep=False):
     """Compile drivers/<name>.cpp (which #includes $VERIF_REPO/src/*.cpp unmodified)."""
+    if sweep:
+        flags, tag = SWEEP_FLAGS, "_sweep"
     src = os.path.join(DRIVERS, name + ".cpp")
     fl = list(SAN_FLAGS if flags is None else flags) + ["-DVERIF_DRIVER_REV=0x" + _common_rev()]
     return build.build_driver(name + tag, [src], fl, outdir=builddir, includes=[DRIVERS])
@@ -128,33 +143,87 @@ def _ub_kind(msg):
     return "undefined-behaviour"
 
 
-def parse_report(text):
+_RAWFRAME = re.compile(r"^\s*#(\d+) 0x[0-9a-f]+\s+\((\S+)\+0x([0-9a-f]+)\)\s*$")
+_A2L_CACHE = {}
+
+
+def _addr2line(exe, offsets):
+    """{offset: [(file, line), ...innermost inlined frame first]} via binutils addr2line
+    (ASan's own symbolizer costs seconds per report; the in-process one is switched off)."""
+    todo = [o for o in offsets if (exe, o) not in _A2L_CACHE]
+    if todo:
+        p = subprocess.run(["addr2line", "-e", exe, "-i", "-a"] + ["0x" + o for o in todo], capture_output=True, text=True)
+        cur = None
+        for line in p.stdout.splitlines():
+            line = line.strip()
+            if line.startswith("0x"):
+                cur = "%x" % int(line, 16)
+                _A2L_CACHE[(exe, cur)] = []
+            elif cur is not None:
+                line = line.split(" (discriminator")[0]
+                f, _, l = line.rpartition(":")
+                _A2L_CACHE[(exe, cur)].append((f, l))
+        for o in todo:
+            _A2L_CACHE.setdefault((exe, "%x" % int(o, 16)), [])
+    return {o: _A2L_CACHE.get((exe, "%x" % int(o, 16)), []) for o in offsets}
+
+
+def _in_repo_src(path):
+    return (path.startswith(os.path.join(build.REPO, "src") + os.sep) or "/src/" in path) and "/drivers/" not in path and "libsanitizer" not in path
+
+
+def parse_report(text, exe=None):
     """Extract {tool, kind, where} from a sanitizer report.  ``where`` is
     '<basename of the repository source file>:<line>' -- the reported line for UBSan, the
     innermost stack frame inside the repository's src/ for ASan/TSan."""
-    repo_src = os.path.join(build.REPO, "src") + os.sep
     for line in text.splitlines():
         m = _UBSAN.match(line.strip())
         if m:
             return {"tool": "ubsan", "kind": _ub_kind(m.group(4)), "where": "%s:%s" % (os.path.basename(m.group(1)), m.group(2))}
     tool = kind = None
-    for line in text.splitlines():
+    lines = text.splitlines()
+    first = 0
+    for k, line in enumerate(lines):
         m = _ASAN.search(line)
         if m:
             tool = {"AddressSanitizer": "asan", "ThreadSanitizer": "tsan"}.get(m.group(1), m.group(1).lower())
             kind = m.group(2).rstrip(":")
+            first = k
             break
         m = _TSAN.search(line)
         if m:
             tool, kind = "tsan", m.group(1).strip().replace(" ", "-")
+            first = k
             break
     if tool is None:
         return None
     where = "unsymbolized"
-    for line in text.splitlines():
+    # the first stack trace of the report (frames #0.. until the numbering restarts)
+    frames = []
+    started = False
+    for line in lines[first:]:
         m = _FRAME.match(line)
-        if m and (m.group(2).startswith(repo_src) or "/src/" in m.group(2)) and "drivers" not in m.group(2):
-            where = "%s:%s" % (os.path.basename(m.group(2)), m.group(3))
+        r = _RAWFRAME.match(line)
+        if m and not r:
+            if started and line.strip().startswith("#0 "):
+                break
+            started = True
+            frames.append(("sym", m.group(2), m.group(3)))
+        elif r:
+            if started and r.group(1) == "0":
+                break
+            started = True
+            frames.append(("raw", r.group(2), r.group(3)))
+    raw_offsets = [f[2] for f in frames if f[0] == "raw" and exe and os.path.basename(f[1]) == os.path.basename(exe)]
+    table = _addr2line(exe, raw_offsets) if raw_offsets else {}
+    for f in frames:
+        if f[0] == "sym":
+            cands = [(f[1], f[2])]
+        else:
+            cands = table.get(f[2], [])
+        hit = next(((p, l) for p, l in cands if _in_repo_src(p)), None)
+        if hit:
+            where = "%s:%s" % (os.path.basename(hit[0]), hit[1])
             break
     return {"tool": tool, "kind": kind, "where": where}
 
@@ -162,9 +231,10 @@ def parse_report(text):
 class DriverRun:
     """Result of one vector: values (list of floats) or error string or sanitizer report."""
 
-    __slots__ = ("values", "error", "report", "report_text", "crashed")
+    __slots__ = ("values", "error", "report", "report_text", "crashed", "skipped")
 
     def __init__(self):
+        self.skipped = False
         self.values = None
         self.error = None
         self.report = None
@@ -172,9 +242,12 @@ class DriverRun:
         self.crashed = None
 
 
-def run_vectors(exe, vectors, timeout=600, extra_env=None, workdir=None):
+def run_vectors(exe, vectors, timeout=1800, extra_env=None, workdir=None, max_aborts=40):
     """Run a list of packed vectors through a driver.  Returns a list of DriverRun, one per
-    vector.  The process is restarted after every abort (sanitizer report / crash)."""
+    vector.  The process is restarted after every abort (sanitizer report / crash); after
+    ``max_aborts`` aborts the remaining vectors are not executed (``skipped``): a tree on which
+    dozens of vectors kill the driver is already being reported, and every further death costs
+    a process."""
     n = len(vectors)
     results = [DriverRun() for _ in range(n)]
     if n == 0:
@@ -192,10 +265,18 @@ def run_vectors(exe, vectors, timeout=600, extra_env=None, workdir=None):
         if extra_env:
             env.update(extra_env)
         first = 0
-        restarts = 0
+        aborts = 0
         while first < n:
+            if aborts >= max_aborts:
+                for r in results[first:]:
+                    if r.values is None and r.error is None and r.report is None and r.crashed is None:
+                        r.skipped = True
+                break
+            fork_mode = False  # (the drivers can fork per vector, but forking an ASan process is dearer than the capped number of restarts)
             try:
-                p = subprocess.run([exe, path, str(first)], capture_output=True, text=True, env=env, timeout=timeout, errors="replace")
+                p = subprocess.run(
+                    [exe, path, str(first), "1" if fork_mode else "0"], capture_output=True, text=True, env=env, timeout=timeout, errors="replace"
+                )
             except subprocess.TimeoutExpired:
                 raise core.HarnessError("HARNESS-DRIVER-TIMEOUT %s (from vector %d)" % (os.path.basename(exe), first))
             cur = None
@@ -215,12 +296,20 @@ def run_vectors(exe, vectors, timeout=600, extra_env=None, workdir=None):
                     results[idx].values = vals
                     if pending:
                         # a recoverable report printed before the result (TSan warnings)
-                        results[idx].report_text = "\n".join(pending)
-                        results[idx].report = parse_report(results[idx].report_text)
+                        results[idx].report_text = "\n".join(pending)[-6000:]
+                        results[idx].report = parse_report(results[idx].report_text, exe)
                     cur = None
                 elif line.startswith("E ") and cur is not None:
                     idx = int(line.split()[1])
                     results[idx].error = line.split(" ", 2)[2] if line.count(" ") >= 2 else ""
+                    cur = None
+                elif line.startswith("X ") and cur is not None:
+                    idx = int(line.split()[1])
+                    text = "\n".join(pending)
+                    results[idx].report_text = text[-6000:]
+                    results[idx].report = parse_report(text, exe)
+                    results[idx].crashed = int(line.split()[2])
+                    aborts += 1
                     cur = None
                 elif line.startswith("DONE "):
                     done = True
@@ -234,13 +323,13 @@ def run_vectors(exe, vectors, timeout=600, extra_env=None, workdir=None):
                 raise core.HarnessError(
                     "HARNESS-DRIVER %s exited with %s outside a vector:\n%s" % (os.path.basename(exe), p.returncode, p.stdout[-2000:])
                 )
-            # vector `cur` died
+            # vector `cur` died and took the driver with it
             text = "\n".join(pending)
             results[cur].report_text = text[-6000:]
-            results[cur].report = parse_report(text)
+            results[cur].report = parse_report(text, exe)
             results[cur].crashed = p.returncode
             first = cur + 1
-            restarts += 1
+            aborts += 1
         return results
     finally:
         try:
